@@ -1,0 +1,252 @@
+//go:build verif
+
+// Contracts for package bid_action (transactions of the external bid application) — property C07 (mempool checks are
+// isolated from consensus execution), clause family C07.bid-prefix.
+// Comment-only file, read by /verif/govc.
+//
+// The conversation store (bid_data.BidConvStore) is ONE object, registered once in the external-store router and reached
+// by every bid transaction — in CheckTx and in DeliverTx alike — through ctx.ExtStores.Get("extBidMaster"). Its `prefix`
+// cursor is moved in place by WithPrefixType. The block-begin hook of the bid application scans the store without
+// selecting a key space, so the code relies on:
+//
+//     between any two ABCI calls the cursor is on ACTIVE            (bidConvOnActive, package bid_data)
+//
+// Every function below that can move the cursor (directly or through a callee) is verified to put it back:
+// `requires bidConvOnActive(S)` at entry (S = the store reached from ctx; the environment invariant, inductive),
+// `ensures bidConvOnActive(S)` on EVERY return path, failed transactions included — a failed CheckTx leaves the cursor
+// behind just as well as a successful one. Where the code does not do so on some path today the clause is a `claims`
+// clause (known failing) next to the strongest clauses that do hold.
+//
+// None of the Process* methods below `implements action.Tx`: that interface's frame (`modifies vHas, vVal, sgas` of the
+// context's State) has no place for the in-memory cursor these handlers move, which is exactly the channel this family is
+// about; their own contracts list it.
+
+package bid_action
+
+// ---------------------------------------------------------------- reaching the store from the context
+//
+// ctx.ExtStores is a data.Router (a map from names to data.ExtStore behind an interface). The lookup is modelled by the
+// uninterpreted extRouted(router, name): Get reads a map that is filled once at start-up (external_apps.RegisterExtApp)
+// and changes nothing — assumed (package data has no contracts; the body of StorageRouter.Get is a map read).
+//@ ghost func extRouted(r data.Router, k data.Type) data.ExtStore
+//@ interface github.com/Oneledger/protocol/data.Router
+//@   method Get
+//@     modifies nothing                                                                                                    // C07.bid-prefix
+//@     ensures err == nil ==> result0 == extRouted(self, arg0)
+
+// bidMSr(r): the bid master store registered in router r (the payload of the router entry "extBidMaster");
+// bidMS(ctx): the one the handlers of this context work on
+//@ ghost func bidMSr(r data.Router) *bid_data.BidMasterStore = unbox(extRouted(r, "extBidMaster"), "*bid_data.BidMasterStore")
+//@ ghost func bidMS(ctx *action.Context) *bid_data.BidMasterStore = bidMSr(ctx.ExtStores)
+
+// bidCtxOK(ctx): what a bid handler may rely on about its context: the context app.context.Action builds (ctxOK), the
+// master store complete and aimed at the context's State (StorageRouter.WithState in Action), a transaction session open
+// (every Process* call runs inside BeginTxSession .. Commit/DiscardTxSession: C06.session).
+//@ ghost func bidCtxOK(ctx *action.Context) bool = ctxOK(ctx) && bidMasterOK(bidMS(ctx)) && bidMS(ctx).BidConv.state == ctx.State && bidMS(ctx).BidOffer.State == ctx.State && wfState(ctx.State) && sessOpen(ctx.State)
+
+// GetBidMasterStore: verified on its body — router lookup, then a type assertion to *bid_data.BidMasterStore
+//@ func GetBidMasterStore
+//@   requires ctx != nil
+//@   modifies nothing                                                                                                      // C07.bid-prefix
+//@   ensures err == nil ==> result0 == bidMS(ctx)                                                                           // C07.bid-prefix
+
+// ---------------------------------------------------------------- shared helpers (common.go)
+
+// asset checks go through the BidAsset interface (bid_data): they see the context, never the bid stores
+//@ func IsAssetAvailable
+//@   requires ctx != nil && ctx.Domains != nil && wfState(ctx.State) && wfState(ctx.Domains.State)
+//@   modifies exhausted(ctx.Domains.State.cache), exhausted(ctx.Domains.State.txSession)                                    // C07.bid-prefix
+//@   ensures wfState(ctx.State) && wfState(ctx.Domains.State)
+
+//@ func ExchangeAsset
+//@   requires ctx != nil && ctx.Domains != nil && ctx.Header != nil && wfState(ctx.State) && wfState(ctx.Domains.State) && sessOpen(ctx.Domains.State)
+//@   modifies domHas(ctx.Domains), dom(ctx.Domains), domPrice(ctx.Domains), stWrites(ctx.Domains.State)   // C07.bid-prefix
+//@   ensures wfState(ctx.Domains.State) && sessOpen(ctx.Domains.State) && (ctx.Domains.State == ctx.State ==> wfState(ctx.State))
+
+// DeactivateOffer works on the balance store and on the OFFER store (which has no cursor); it cannot reach the
+// conversation store's cursor: bidMasterStore.BidConv is not in its frame.
+// Its two calls into the balance ledger carry that package's preconditions (C02.sign, C18.nil-amount: a non-nil,
+// non-negative amount). Nothing in the bid application establishes them (CreateBidTx.Validate / CounterOfferTx.Validate do
+// not look at the sign of the amount; Amount.ToCoin yields a Coin without amount for an unknown currency): those call-site
+// obligations are NOT discharged here and keep their own tags — they are outside C07 and reported as such.
+// `activeOffer != nil` (C18.nil-offer): the body dereferences it first thing. runCancelBid is the one caller that does not
+// check the offer it read for nil (GetActiveOffer answers (nil, nil) when there is no active offer) — not C07 either.
+//@ func DeactivateOffer
+//@   requires activeOffer != nil                                                                                            // C18.nil-offer
+//@   requires ctx != nil && ctx.Header != nil && ctx.Balances != nil && bidMasterOK(bidMasterStore) && wfState(bidMasterStore.BidOffer.State)
+//@   modifies *activeOffer, bal(ctx.Balances), balTotal(ctx.Balances), vHas(ctx.Balances.State), vVal(ctx.Balances.State), stWrites(bidMasterStore.BidOffer.State)   // C07.bid-prefix
+//@   ensures wfState(bidMasterStore.BidOffer.State) && sessOpen(bidMasterStore.BidOffer.State) == old(sessOpen(bidMasterStore.BidOffer.State))
+
+// CloseBidConv files the conversation under the target key space, then deletes it from ACTIVE. The ORDER is what
+// re-establishes the invariant: the ACTIVE access comes last, so the cursor ends on ACTIVE.
+//  * proved: on success the cursor is on ACTIVE;
+//  * proved: whenever the cursor is NOT on ACTIVE at return, the call failed and the cursor is on the target key space
+//    (exactly one such path: the Set into the target key space failed and the function returned before the second
+//    WithPrefixType);
+//  * claims (KNOWN FAILING, real code): the cursor is on ACTIVE on every return path. Violated by that path. It needs
+//    BidConvStore.Set to fail: the serializer refusing the record, or State.Set failing — which it cannot inside a
+//    transaction session (C09.write-visible-session), so with today's callers (all inside a session, records always
+//    serializable) the path is latent. A repair is one line: re-select ACTIVE before returning the error.
+//    Function-level replay: /verif/replay/templates/c07_bid_action.go (a State without session whose gas limit is used up:
+//    CloseBidConv(.., CANCELLED) fails with "gas exceeds limit", the cursor stays on CANCELLED, the next unselected scan —
+//    what the block-begin hook does — sees 0 conversations instead of 1).
+//@ func CloseBidConv
+//@   requires bidConv != nil && bidMasterOK(bidMasterStore) && wfState(bidMasterStore.BidConv.state)
+//@   modifies bidMasterStore.BidConv.prefix, stWrites(bidMasterStore.BidConv.state)                                         // C07.bid-prefix
+//@   ensures err == nil ==> bidConvOnActive(bidMasterStore.BidConv)                                                         // C07.bid-prefix
+//@   ensures !bidConvOnActive(bidMasterStore.BidConv) ==> err != nil && bidMasterStore.BidConv.prefix == bidPfx(old(bidMasterStore.BidConv), targetState)   // C07.bid-prefix
+//@   claims bidConvOnActive(bidMasterStore.BidConv)                                                                         // C07.bid-prefix
+//@   ensures wfState(bidMasterStore.BidConv.state) && sessOpen(bidMasterStore.BidConv.state) == old(sessOpen(bidMasterStore.BidConv.state))
+
+// createBidConv (CreateBid without an id): FilterBidConvs(ACTIVE) leaves the cursor where it found it (its deferred
+// closure), the record is then written through WithPrefixType(ACTIVE). The three early returns (deadline passed, no master
+// store, an active conversation exists already) happen before any lasting cursor move, hence the entry invariant.
+//@ func (*CreateBid).createBidConv
+//@   requires c != nil && bidCtxOK(ctx)
+//@   requires bidConvOnActive(bidMS(ctx).BidConv)                                                                           // C07.bid-prefix
+//@   modifies bidMS(ctx).BidConv.prefix, stWrites(ctx.State)                                                                // C07.bid-prefix
+//@   ensures bidConvOnActive(bidMS(ctx).BidConv)                                                                            // C07.bid-prefix
+//@   ensures wfState(ctx.State) && sessOpen(ctx.State)
+
+// event tags: pure
+//@ func (CreateBid).Tags
+//@   modifies nothing                                                                                                      // C07.bid-prefix
+//@ func (CounterOffer).Tags
+//@   modifies nothing                                                                                                      // C07.bid-prefix
+//@ func (CancelBid).Tags
+//@   modifies nothing                                                                                                      // C07.bid-prefix
+//@ func (BidderDecision).Tags
+//@   modifies nothing                                                                                                      // C07.bid-prefix
+//@ func (OwnerDecision).Tags
+//@   modifies nothing                                                                                                      // C07.bid-prefix
+//@ func (ExpireBid).Tags
+//@   modifies nothing                                                                                                      // C07.bid-prefix
+
+// ---------------------------------------------------------------- the six bid transactions
+//
+// Environment invariant at entry (`requires bidConvOnActive`): established by NewBidConvStore at application start,
+// re-established by every Process* below. Needed on the paths that return before the first WithPrefixType (payload does
+// not decode, no master store, asset not available, createBidConv's early returns).
+// Frame of a handler: the cursor, the State the context is aimed at, the balance ledger, the domain ledger.
+
+// BID_CREATE: never closes a conversation; every cursor move selects ACTIVE. Proved on every return path.
+//@ func runCreateBid
+//@   requires bidCtxOK(ctx)
+//@   requires bidConvOnActive(bidMS(ctx).BidConv)                                                                         // C07.bid-prefix
+//@   modifies bidMS(ctx).BidConv.prefix, stWrites(ctx.State), bal(ctx.Balances), balTotal(ctx.Balances), domHas(ctx.Domains), dom(ctx.Domains), domPrice(ctx.Domains), heap("bid_data.BidOffer")  // C07.bid-prefix
+//@   ensures bidConvOnActive(bidMS(ctx).BidConv)                                                                          // C07.bid-prefix
+//@ func (CreateBidTx).ProcessCheck
+//@   requires bidCtxOK(ctx)
+//@   requires bidConvOnActive(bidMS(ctx).BidConv)                                                                         // C07.bid-prefix
+//@   modifies bidMS(ctx).BidConv.prefix, stWrites(ctx.State), bal(ctx.Balances), balTotal(ctx.Balances), domHas(ctx.Domains), dom(ctx.Domains), domPrice(ctx.Domains), heap("bid_data.BidOffer")  // C07.bid-prefix
+//@   ensures bidConvOnActive(bidMS(ctx).BidConv)                                                                          // C07.bid-prefix
+//@ func (CreateBidTx).ProcessDeliver
+//@   requires bidCtxOK(ctx)
+//@   requires bidConvOnActive(bidMS(ctx).BidConv)                                                                         // C07.bid-prefix
+//@   modifies bidMS(ctx).BidConv.prefix, stWrites(ctx.State), bal(ctx.Balances), balTotal(ctx.Balances), domHas(ctx.Domains), dom(ctx.Domains), domPrice(ctx.Domains), heap("bid_data.BidOffer")  // C07.bid-prefix
+//@   ensures bidConvOnActive(bidMS(ctx).BidConv)                                                                          // C07.bid-prefix
+
+// BID_CONTER_OFFER: never closes a conversation; every cursor move selects ACTIVE. Proved on every return path.
+//@ func runCounterOffer
+//@   requires bidCtxOK(ctx)
+//@   requires bidConvOnActive(bidMS(ctx).BidConv)                                                                         // C07.bid-prefix
+//@   modifies bidMS(ctx).BidConv.prefix, stWrites(ctx.State), bal(ctx.Balances), balTotal(ctx.Balances), domHas(ctx.Domains), dom(ctx.Domains), domPrice(ctx.Domains), heap("bid_data.BidOffer")  // C07.bid-prefix
+//@   ensures bidConvOnActive(bidMS(ctx).BidConv)                                                                          // C07.bid-prefix
+//@ func (CounterOfferTx).ProcessCheck
+//@   requires bidCtxOK(ctx)
+//@   requires bidConvOnActive(bidMS(ctx).BidConv)                                                                         // C07.bid-prefix
+//@   modifies bidMS(ctx).BidConv.prefix, stWrites(ctx.State), bal(ctx.Balances), balTotal(ctx.Balances), domHas(ctx.Domains), dom(ctx.Domains), domPrice(ctx.Domains), heap("bid_data.BidOffer")  // C07.bid-prefix
+//@   ensures bidConvOnActive(bidMS(ctx).BidConv)                                                                          // C07.bid-prefix
+//@ func (CounterOfferTx).ProcessDeliver
+//@   requires bidCtxOK(ctx)
+//@   requires bidConvOnActive(bidMS(ctx).BidConv)                                                                         // C07.bid-prefix
+//@   modifies bidMS(ctx).BidConv.prefix, stWrites(ctx.State), bal(ctx.Balances), balTotal(ctx.Balances), domHas(ctx.Domains), dom(ctx.Domains), domPrice(ctx.Domains), heap("bid_data.BidOffer")  // C07.bid-prefix
+//@   ensures bidConvOnActive(bidMS(ctx).BidConv)                                                                          // C07.bid-prefix
+
+// BID_CANCEL: closes the conversation through CloseBidConv (CANCELLED). Proved: cursor on ACTIVE whenever the transaction succeeds;
+// the every-path clause is a `claims` clause, KNOWN FAILING through the one path of CloseBidConv described there
+// (the handler returns false straight after it, cursor on the target key space).
+//@ func runCancelBid
+//@   requires bidCtxOK(ctx)
+//@   requires bidConvOnActive(bidMS(ctx).BidConv)                                                                         // C07.bid-prefix
+//@   modifies bidMS(ctx).BidConv.prefix, stWrites(ctx.State), bal(ctx.Balances), balTotal(ctx.Balances), domHas(ctx.Domains), dom(ctx.Domains), domPrice(ctx.Domains), heap("bid_data.BidOffer")  // C07.bid-prefix
+//@   ensures result0 ==> bidConvOnActive(bidMS(ctx).BidConv)                                                              // C07.bid-prefix
+//@   ensures !bidConvOnActive(bidMS(ctx).BidConv) ==> !result0 && bidMS(ctx).BidConv.prefix == bidMS(ctx).BidConv.prefixCancelled   // C07.bid-prefix
+//@ func (CancelBidTx).ProcessCheck
+//@   requires bidCtxOK(ctx)
+//@   requires bidConvOnActive(bidMS(ctx).BidConv)                                                                         // C07.bid-prefix
+//@   modifies bidMS(ctx).BidConv.prefix, stWrites(ctx.State), bal(ctx.Balances), balTotal(ctx.Balances), domHas(ctx.Domains), dom(ctx.Domains), domPrice(ctx.Domains), heap("bid_data.BidOffer")  // C07.bid-prefix
+//@   ensures result0 ==> bidConvOnActive(bidMS(ctx).BidConv)                                                              // C07.bid-prefix
+//@   claims bidConvOnActive(bidMS(ctx).BidConv)                                                                           // C07.bid-prefix
+//@ func (CancelBidTx).ProcessDeliver
+//@   requires bidCtxOK(ctx)
+//@   requires bidConvOnActive(bidMS(ctx).BidConv)                                                                         // C07.bid-prefix
+//@   modifies bidMS(ctx).BidConv.prefix, stWrites(ctx.State), bal(ctx.Balances), balTotal(ctx.Balances), domHas(ctx.Domains), dom(ctx.Domains), domPrice(ctx.Domains), heap("bid_data.BidOffer")  // C07.bid-prefix
+//@   ensures result0 ==> bidConvOnActive(bidMS(ctx).BidConv)                                                              // C07.bid-prefix
+//@   claims bidConvOnActive(bidMS(ctx).BidConv)                                                                           // C07.bid-prefix
+
+// BID_BIDDER_DECISION: closes the conversation through CloseBidConv (REJECTED or SUCCEED). Proved: cursor on ACTIVE whenever the transaction succeeds;
+// the every-path clause is a `claims` clause, KNOWN FAILING through the one path of CloseBidConv described there
+// (the handler returns false straight after it, cursor on the target key space).
+//@ func runBidderDecision
+//@   requires bidCtxOK(ctx)
+//@   requires bidConvOnActive(bidMS(ctx).BidConv)                                                                         // C07.bid-prefix
+//@   modifies bidMS(ctx).BidConv.prefix, stWrites(ctx.State), bal(ctx.Balances), balTotal(ctx.Balances), domHas(ctx.Domains), dom(ctx.Domains), domPrice(ctx.Domains), heap("bid_data.BidOffer")  // C07.bid-prefix
+//@   ensures result0 ==> bidConvOnActive(bidMS(ctx).BidConv)                                                              // C07.bid-prefix
+//@   ensures !bidConvOnActive(bidMS(ctx).BidConv) ==> !result0 && (bidMS(ctx).BidConv.prefix == bidMS(ctx).BidConv.prefixRejected || bidMS(ctx).BidConv.prefix == bidMS(ctx).BidConv.prefixSucceed)   // C07.bid-prefix
+//@ func (BidderDecisionTx).ProcessCheck
+//@   requires bidCtxOK(ctx)
+//@   requires bidConvOnActive(bidMS(ctx).BidConv)                                                                         // C07.bid-prefix
+//@   modifies bidMS(ctx).BidConv.prefix, stWrites(ctx.State), bal(ctx.Balances), balTotal(ctx.Balances), domHas(ctx.Domains), dom(ctx.Domains), domPrice(ctx.Domains), heap("bid_data.BidOffer")  // C07.bid-prefix
+//@   ensures result0 ==> bidConvOnActive(bidMS(ctx).BidConv)                                                              // C07.bid-prefix
+//@   claims bidConvOnActive(bidMS(ctx).BidConv)                                                                           // C07.bid-prefix
+//@ func (BidderDecisionTx).ProcessDeliver
+//@   requires bidCtxOK(ctx)
+//@   requires bidConvOnActive(bidMS(ctx).BidConv)                                                                         // C07.bid-prefix
+//@   modifies bidMS(ctx).BidConv.prefix, stWrites(ctx.State), bal(ctx.Balances), balTotal(ctx.Balances), domHas(ctx.Domains), dom(ctx.Domains), domPrice(ctx.Domains), heap("bid_data.BidOffer")  // C07.bid-prefix
+//@   ensures result0 ==> bidConvOnActive(bidMS(ctx).BidConv)                                                              // C07.bid-prefix
+//@   claims bidConvOnActive(bidMS(ctx).BidConv)                                                                           // C07.bid-prefix
+
+// BID_OWNER_DECISION: closes the conversation through CloseBidConv (REJECTED or SUCCEED). Proved: cursor on ACTIVE whenever the transaction succeeds;
+// the every-path clause is a `claims` clause, KNOWN FAILING through the one path of CloseBidConv described there
+// (the handler returns false straight after it, cursor on the target key space).
+//@ func runOwnerDecision
+//@   requires bidCtxOK(ctx)
+//@   requires bidConvOnActive(bidMS(ctx).BidConv)                                                                         // C07.bid-prefix
+//@   modifies bidMS(ctx).BidConv.prefix, stWrites(ctx.State), bal(ctx.Balances), balTotal(ctx.Balances), domHas(ctx.Domains), dom(ctx.Domains), domPrice(ctx.Domains), heap("bid_data.BidOffer")  // C07.bid-prefix
+//@   ensures result0 ==> bidConvOnActive(bidMS(ctx).BidConv)                                                              // C07.bid-prefix
+//@   ensures !bidConvOnActive(bidMS(ctx).BidConv) ==> !result0 && (bidMS(ctx).BidConv.prefix == bidMS(ctx).BidConv.prefixRejected || bidMS(ctx).BidConv.prefix == bidMS(ctx).BidConv.prefixSucceed)   // C07.bid-prefix
+//@ func (OwnerDecisionTx).ProcessCheck
+//@   requires bidCtxOK(ctx)
+//@   requires bidConvOnActive(bidMS(ctx).BidConv)                                                                         // C07.bid-prefix
+//@   modifies bidMS(ctx).BidConv.prefix, stWrites(ctx.State), bal(ctx.Balances), balTotal(ctx.Balances), domHas(ctx.Domains), dom(ctx.Domains), domPrice(ctx.Domains), heap("bid_data.BidOffer")  // C07.bid-prefix
+//@   ensures result0 ==> bidConvOnActive(bidMS(ctx).BidConv)                                                              // C07.bid-prefix
+//@   claims bidConvOnActive(bidMS(ctx).BidConv)                                                                           // C07.bid-prefix
+//@ func (OwnerDecisionTx).ProcessDeliver
+//@   requires bidCtxOK(ctx)
+//@   requires bidConvOnActive(bidMS(ctx).BidConv)                                                                         // C07.bid-prefix
+//@   modifies bidMS(ctx).BidConv.prefix, stWrites(ctx.State), bal(ctx.Balances), balTotal(ctx.Balances), domHas(ctx.Domains), dom(ctx.Domains), domPrice(ctx.Domains), heap("bid_data.BidOffer")  // C07.bid-prefix
+//@   ensures result0 ==> bidConvOnActive(bidMS(ctx).BidConv)                                                              // C07.bid-prefix
+//@   claims bidConvOnActive(bidMS(ctx).BidConv)                                                                           // C07.bid-prefix
+
+// BID_EXPIRE: closes the conversation through CloseBidConv (EXPIRED). Proved: cursor on ACTIVE whenever the transaction succeeds;
+// the every-path clause is a `claims` clause, KNOWN FAILING through the one path of CloseBidConv described there
+// (the handler returns false straight after it, cursor on the target key space).
+//@ func runExpireBid
+//@   requires bidCtxOK(ctx)
+//@   requires bidConvOnActive(bidMS(ctx).BidConv)                                                                         // C07.bid-prefix
+//@   modifies bidMS(ctx).BidConv.prefix, stWrites(ctx.State), bal(ctx.Balances), balTotal(ctx.Balances), domHas(ctx.Domains), dom(ctx.Domains), domPrice(ctx.Domains), heap("bid_data.BidOffer")  // C07.bid-prefix
+//@   ensures result0 ==> bidConvOnActive(bidMS(ctx).BidConv)                                                              // C07.bid-prefix
+//@   ensures !bidConvOnActive(bidMS(ctx).BidConv) ==> !result0 && bidMS(ctx).BidConv.prefix == bidMS(ctx).BidConv.prefixExpired   // C07.bid-prefix
+//@ func (ExpireBidTx).ProcessCheck
+//@   requires bidCtxOK(ctx)
+//@   requires bidConvOnActive(bidMS(ctx).BidConv)                                                                         // C07.bid-prefix
+//@   modifies bidMS(ctx).BidConv.prefix, stWrites(ctx.State), bal(ctx.Balances), balTotal(ctx.Balances), domHas(ctx.Domains), dom(ctx.Domains), domPrice(ctx.Domains), heap("bid_data.BidOffer")  // C07.bid-prefix
+//@   ensures result0 ==> bidConvOnActive(bidMS(ctx).BidConv)                                                              // C07.bid-prefix
+//@   claims bidConvOnActive(bidMS(ctx).BidConv)                                                                           // C07.bid-prefix
+//@ func (ExpireBidTx).ProcessDeliver
+//@   requires bidCtxOK(ctx)
+//@   requires bidConvOnActive(bidMS(ctx).BidConv)                                                                         // C07.bid-prefix
+//@   modifies bidMS(ctx).BidConv.prefix, stWrites(ctx.State), bal(ctx.Balances), balTotal(ctx.Balances), domHas(ctx.Domains), dom(ctx.Domains), domPrice(ctx.Domains), heap("bid_data.BidOffer")  // C07.bid-prefix
+//@   ensures result0 ==> bidConvOnActive(bidMS(ctx).BidConv)                                                              // C07.bid-prefix
+//@   claims bidConvOnActive(bidMS(ctx).BidConv)                                                                           // C07.bid-prefix
